@@ -8,9 +8,9 @@ sys.path.insert(0, os.path.dirname(os.path.dirname(os.path.abspath(__file__))))
 import core   # noqa: E402
 import amod   # noqa: E402
 
-INVS = ["TypeOK", "Lossless", "Conservation", "Bound", "ParkedNotDone", "NoStuckEmit", "CbSafe", "RcBalance"]
+INVS = ["TypeOK", "Lossless", "Conservation", "Bound", "ParkedNotDone", "NoStuckEmit", "CbSafe", "FailedNeverSignalled", "RcBalance"]
 INV_PROP = {"Lossless": "C02", "Conservation": "C02", "Bound": "C03", "ParkedNotDone": "C03", "NoStuckEmit": "C03",
-            "EmitsComplete": "C03", "AllDelivered": "C02", "CbSafe": "C04", "RcBalance": "C05", "NoResurrection": "C05",
+            "EmitsComplete": "C03", "AllDelivered": "C02", "CbSafe": "C04", "FailedNeverSignalled": "C04", "RcBalance": "C05", "NoResurrection": "C05",
             "TypeOK": "C02"}
 
 
@@ -31,6 +31,8 @@ def adapt(run):
             out.append({"ev": "CbEmit", "e": ev["x"][0] if len(ev["x"]) == 1 else -1, "md": ev["md"]})
         elif k == "cons_done" and not sync:
             out.append({"ev": "ConsumerDone"})
+        elif k == "cons_fail":
+            out.append({"ev": "ConsumerFail"})
         elif k == "release" and ev["site"].endswith(".cb"):
             out.append({"ev": "CbRelease", "e": ev["tag"], "count": ev["count"], "fired": bool(ev["fired"])})
         elif k == "release" and ev["fired"]:
@@ -85,12 +87,14 @@ def configs(tier):
     for n in ((1, 2) if tier == "quick" else (1, 2, 3)):
         for cons in ("future", "coro", "sync"):
             cfgs.append({"kind": "buffer", "n": n, "cons": [cons], "max_elems": 4 if tier == "quick" else 5})
+        # the consumer's awaitable may raise (once per run)
+        cfgs.append({"kind": "buffer", "n": n, "cons": ["future"], "max_elems": 4 if tier == "quick" else 5, "faults": True})
     return cfgs
 
 
 def consts_of(cfg):
     return dict(NE=cfg["max_elems"], N=cfg.get("n", 0), SyncCons=cfg["cons"][0] == "sync",
-                Interval=int(cfg.get("interval", 0)), MaxOut=cfg["max_elems"], MaxTime=0)
+                Interval=int(cfg.get("interval", 0)), MaxOut=cfg["max_elems"], MaxTime=0, Faults=bool(cfg.get("faults")))
 
 
 def run(tier, seed, mutant=None, only_validate=False):
@@ -104,7 +108,7 @@ def run(tier, seed, mutant=None, only_validate=False):
                 for sync in (False, True):
                     for maxout in ((1, ne) if tier == "quick" else (1, 2, ne)):
                         r, rec = amod.mc(res, work, "AsyncBuffer", "n%d_sync%d_out%d" % (n, sync, maxout),
-                                         dict(NE=ne, N=n, SyncCons=sync, Interval=0, MaxOut=maxout, MaxTime=0),
+                                         dict(NE=ne, N=n, SyncCons=sync, Interval=0, MaxOut=maxout, MaxTime=0, Faults=not sync),
                                          INVS, ["NoResurrection", "EmitsComplete", "AllDelivered"], spec="FairSpec")
                         if not r.ok:
                             res.violations.append(dict(property=INV_PROP.get(r.violated or "", "C02"), engine="abuffer",
@@ -121,7 +125,7 @@ def run(tier, seed, mutant=None, only_validate=False):
             key = str(sorted(r["cfg"].items()))
             groups.setdefault(key, (r["cfg"], []))[1].append({"id": i, "ev": t})
             traces[i] = (r, t)
-        glist = [("buffer n=%s %s" % (c.get("n"), c["cons"][0]), consts_of(c), ts) for c, ts in groups.values()]
+        glist = [("buffer n=%s %s%s" % (c.get("n"), c["cons"][0], " faults" if c.get("faults") else ""), consts_of(c), ts) for c, ts in groups.values()]
         reached, problems = amod.validate_groups(work, "AsyncBufferTrace", glist)
         res.traces = len(runs)
         res.evaluations = sum(len(t[1]) for t in traces.values())
